@@ -1,5 +1,7 @@
 """C04 — derivatives exact on low-degree polynomials, linear, blind across gaps."""
 import itertools
+import math
+import os
 import random
 from fractions import Fraction
 
@@ -17,16 +19,45 @@ RULE = ("(a) operators._split_diff_combine on EVERY validity pattern of every li
         "through Field.diff on 1-d open and periodic meshes (all masks, L<=Lmax-2); (c) Field.diff on 1-4-d anisotropic meshes, "
         "1-3 components, every axis, periodic or open, restriction on/off. Oracle on the real code: per-run polynomial exactness "
         "(deg<=2 / <=1 / <=3 / <=2 by run length), zeros on invalid and short runs, locality under perturbation outside the run, "
-        "linearity, roll-equivariance on rings. non-trivial = some run longer than the order with non-constant data")
+        "linearity, roll-equivariance on rings. (s) THE SAME AT EVERY MAGNITUDE ('any cell size, all real field values'): "
+        "(s1) _split_diff_combine, every mask L<=7 (10 thorough) x both orders + random L<=60 + lines of 300..5000 cells; "
+        "(s2) Field.diff on 1-d meshes, every mask L<=5 (7) x order x periodic x restriction on/off + random L<=48 + lines of "
+        "200..4096 cells, mesh 0 .. 2^40 cells away from the origin on either side, float32 storage; (s3) 1-4-d fields, 1-6 "
+        "components, every axis, cell edges of different axes up to 2^140 apart (dyadic) / 5 decades apart (arbitrary floats), "
+        "far offsets; (s4) 2-d fields with one axis of 400..2500 cells; (s5) orders 0,3,4,7,-1,-2 refused along every axis. "
+        "Two regimes per stream: EXACT - values m*2^e with |m|<2^mant (mant 4..40 bits, near-constant data 2^(mant-1)+-63, "
+        "zeros), e in [-300,300], each maximal run / each component at its own scale (spread up to 2^+-200 between runs, "
+        "2^+-200 between components), h=2^k with k in [-200,200]: every binary64 operation stays exact, equality with the "
+        "rational model and with the exact polynomial derivative is demanded bit for bit at 1e-90 as at 1e+90; TOLERANCE - "
+        "arbitrary binary64 values A*(base+u), A in 1e-30..1e21 (x 1e+-25 between runs), base in {0,1,1e3,1e6,1e9}, cell "
+        "size d.ddd*10^k with k in [-12,19], sent to the model as the exact rationals they are: a cell may differ from the "
+        "model / the exact polynomial derivative by 64*2^-52*max|value in the 7-cell stencil neighbourhood|/h^order (+ the "
+        "rounding of far-away corner coordinates, coord_noise), never by anything absolute or tied to values elsewhere. Oracles "
+        "at scale: polynomial exactness per run (each run its own scale), exact zeros on invalid cells and short runs, "
+        "bit-identical run results when everything outside the run is replaced by values up to 2^+-250 away in magnitude, "
+        "one grid line replaced likewise leaves all other lines bit-identical, components alone = components together, "
+        "linearity 2f-3g, homogeneity diff(c f) = c diff(f) for c = {1,-5/2,3}*2^k with |k| up to 200, ring shift, centred "
+        "wrap-around differences on fully valid / unrestricted rings, meta data, operand untouched. "
+        "non-trivial = some run longer than the order with non-constant data")
 TRUSTED = ["harness/c04.py, harness/fieldio.py + driver JSON glue", "np.gradient / np.convolve / np.pad(mode='wrap') modelled by contract"]
-ASSUMPTIONS = ["exact-regime inputs (small integers, dyadic steps): every binary64 operation on the code path is exact, so equality is demanded"]
+ASSUMPTIONS = ["exact-regime inputs (small integers, dyadic steps): every binary64 operation on the code path is exact, so equality is demanded",
+               "exact regime at scale: mantissa bits + exponent spread inside one stencil + 4 <= 53 and |exponent of value/h^2| < 1000 (no overflow, no subnormals) "
+               "by construction of the generator, so scaling by powers of two changes no rounding decision",
+               "tolerance regime: forward error bound 64 ulp of the largest value in the stencil neighbourhood divided by h^order; far-away corner coordinates "
+               "(arbitrary floats) fix the cell size only up to order*8*ulp(corner)/edge (the wrap-padded mesh of a periodic axis is rebuilt from moved corners)",
+               "default tolerance-regime n-d meshes keep |corner| / smallest cell edge below ~1e10 (Mesh.sel's divisibility test, see VERIF_C04_ANISO_FAR); "
+               "integer-typed field storage is exercised only with VERIF_C04_INT_DTYPE=1 (both are findings on the unchanged library)"]
 UNPROVED = ["ring_shift for masks whose valid run crosses the periodic seam is FALSE of the code (known finding D17; the counterexample is proved on the "
             "model: ring_shift_masked_counterexample, ring_shift_not_for_all_masks). Proved instead, for every mask: what the code computes run by run "
             "(ring_inner_run: a run delimited inside the stored line gets the ring-run value; ring_head_run_seam / ring_tail_run_seam: a run at the seam is "
             "differentiated with exactly one cell from the other side), ring_open_if_first/last_invalid, shift-equivariance for every rotation that keeps "
             "all runs off the seam (ring_shift_off_seam, ring_shift_off_seam_one), reversal (ring_reverse), and ring_shift for fully valid rings / restriction off",
             "n-d locality (diff_locality_nd), diff_refines_spec and diff_short_run_zero are stated for open axes; for a periodic axis the field-level statements are "
-            "diff_cell + diff_refines_spec_periodic (the spec applied to the wrap-padded line), diff_periodic_centred_d1/d2 (fully valid lines) and diff_invalid_zero (both kinds of axis)"]
+            "diff_cell + diff_refines_spec_periodic (the spec applied to the wrap-padded line), diff_periodic_centred_d1/d2 (fully valid lines) and diff_invalid_zero (both kinds of axis)",
+            "binary64 rounding is not modelled: line_smul / diff_linear / d1_exact / d2_exact are theorems over the rationals for every h and every scale; that the code follows them at every "
+            "magnitude (no absolute threshold, clipping, snapping or narrowing anywhere between 1e-270 and 1e+270) is established by the scale streams only: exactly where powers of two keep "
+            "the arithmetic exact, within the stencil's forward error bound otherwise",
+            "subnormal results, overflow, NaN/inf field values and complex fields are outside the streams"]
 BUDGET = {"quick": 80, "thorough": 900}
 
 
@@ -63,6 +94,7 @@ def cases(rng, tier):
         spec = fieldio.gen_mesh_spec(rng, max_cells=90, nmax=7, bc_prob=0.6)
         yield dict(kind="field", mesh=spec, nvdim=rng.choice([1, 1, 2, 3]), order=rng.choice([1, 2]),
                    restrict=rng.random() < 0.8, density=rng.choice([1.0, 0.9, 0.7, 0.5]), sub=rng.getrandbits(32))
+    yield from scaled_cases(rng, tier)
 
 
 # ------------------------------------------------------------------ oracles on the real code
@@ -122,10 +154,756 @@ def line_oracle(fn, L, mask, order, h, rng, fail):
         fail(f"not linear on mask {mask.astype(int).tolist()} order {order}")
 
 
+# ====================================================================== scale streams
+# The property quantifies over ANY cell size and ALL real field values.  The streams above keep
+# every derivative at magnitude ~1 (small integers over h = 2^-k, k <= 3); the streams below put
+# the same structure (every mask x order x periodic x restriction) at every magnitude:
+#   exact regime    values  m * 2^e  (|m| < 2^mant, mant up to 40 bits: nothing survives a float32
+#                   detour), e from -300 to 300, each maximal run / component at its OWN scale,
+#                   h = 2^-k with k from -200 to 200, meshes far from the origin.  Scaling by
+#                   powers of two commutes with every binary64 operation, so equality with the
+#                   rational model is still demanded exactly - at 1e-90 as at 1e+90.
+#   tolerance regime arbitrary binary64 values (magnitudes 1e-30 .. 1e45, constant offsets) and
+#                   arbitrary cell sizes (1e-12 .. 1e19), sent to the model as the exact rationals
+#                   they are; a cell may differ from the model by KTOL * 2^-52 * max|value in its
+#                   stencil neighbourhood| / h^order (forward error of a <= 4-term stencil), never by
+#                   anything tied to an absolute magnitude or to values elsewhere in the field.
+EPS = Fraction(1, 2 ** 52)
+KTOL = 64
+INT_DTYPE = os.environ.get("VERIF_C04_INT_DTYPE") == "1"   # stream that exposes finding "integer-typed field" (see final report)
+ANISO_FAR = os.environ.get("VERIF_C04_ANISO_FAR") == "1"   # arbitrary-float meshes with cell edges > 1e9 apart / far from the origin (see final report)
+MODEL_FIELD_MAX = 150   # longer lines go to the model line by line (op sdc); the field-level model is cubic in L
+
+
+def P2(e):
+    return Fraction(2) ** int(e)
+
+
+def dec_float(rng, lo, hi, digits=5):
+    """an 'ordinary looking' decimal float  d.dddd e k : not dyadic, any decade in [lo, hi]"""
+    return float(f"{rng.uniform(1, 10):.{digits}g}e{rng.randint(lo, hi)}")
+
+
+def gen_scale(rng, joined, f32=False):
+    """scale parameters of one case.  joined: values of different runs meet in one stencil
+    (periodic seam / restriction off), so their exponents must stay within the 53-bit budget."""
+    if f32:
+        return dict(tol=False, f32=True, vexp=rng.randint(-20, 20), hexp=rng.randint(-15, 15), spread=rng.choice([0, 0, 3]),
+                    mant=rng.choice([3, 6]))
+    if rng.random() < 0.4:
+        return dict(tol=True, A=dec_float(rng, -30, 20), hf=dec_float(rng, -12, 19),
+                    spread=rng.choice([0, 0, 2] if joined else [0, 0, 6, 25]), base=rng.choice([0, 0, 0, 1, 10 ** 3, 10 ** 6, 10 ** 9]))
+    r = rng.random()
+    vexp = rng.randint(-300, 300) if r < 0.35 else rng.randint(-100, 70) if r < 0.9 else 0
+    hexp = rng.randint(-70, 70) if rng.random() < 0.8 else rng.randint(-200, 200)
+    # nc: near-constant data (one large constant + a small variation per run): the derivative lives in the low bits
+    if joined:
+        mant = rng.choice([4, 10, 20])
+        return dict(tol=False, vexp=vexp, hexp=hexp, spread=rng.choice([0, 3, 12]), mant=mant, nc=mant >= 20 and rng.random() < 0.4)
+    mant = rng.choice([4, 10, 24, 40])
+    return dict(tol=False, vexp=vexp, hexp=hexp, spread=rng.choice([0, 0, 20, 200]), mant=mant, nc=mant >= 20 and rng.random() < 0.4)
+
+
+def sc_h(sc):
+    """cell size of a line-level case as an exact rational (a binary64 number)"""
+    return Fraction(sc["hf"]) if sc["tol"] else P2(-sc["hexp"])
+
+
+def long_mask(rng, L, pat):
+    if pat == "all":
+        return [True] * L
+    if pat == "few":
+        bad = {rng.randrange(L) for _ in range(rng.randint(1, 5))}
+        return [i not in bad for i in range(L)]
+    if pat == "rand":
+        return [rng.random() < 0.9 for _ in range(L)]
+    if pat == "ends":
+        return [3 <= i < L - 2 for i in range(L)]
+    m, v = [], True   # blocks: alternating valid / invalid stretches, valid ones of every length 1..60
+    while len(m) < L:
+        m += [v] * (rng.randint(1, 60) if v else rng.randint(1, 3))
+        v = not v
+    return m[:L]
+
+
+def case_mask(case):
+    if "mask" in case:
+        return list(case["mask"])
+    return long_mask(random.Random(case["sub"] ^ 0x5A5A5A), case["L"], case["pat"])
+
+
+def scaled_cases(rng, tier):
+    q = tier == "quick"
+    # (s1) operators level: every mask of short lines at a random scale, random longer lines
+    for L in range(1, (7 if q else 10) + 1):
+        for mask in itertools.product([True, False], repeat=L):
+            for order in (1, 2):
+                yield dict(kind="sline", L=L, mask=list(mask), order=order, sc=gen_scale(rng, False), sub=rng.getrandbits(32))
+    for _ in range(250 if q else 2500):
+        L = rng.randint(8, 60)
+        dens = rng.choice([1.0, 0.95, 0.8, 0.5])
+        yield dict(kind="sline", L=L, mask=[rng.random() < dens for _ in range(L)], order=rng.choice([1, 2]),
+                   sc=gen_scale(rng, False), sub=rng.getrandbits(32))
+    # (s2) Field.diff on 1-d meshes: every mask x order x periodic x restriction, far offsets, float32 storage
+    for L in range(1, (5 if q else 7) + 1):
+        for mask in itertools.product([True, False], repeat=L):
+            for order in (1, 2):
+                for periodic in (False, True):
+                    for restrict in (True, False):
+                        yield s1d_case(rng, L, list(mask), order, periodic, restrict)
+    for _ in range(320 if q else 3000):
+        L = rng.randint(6, 48)
+        dens = rng.choice([1.0, 0.95, 0.8, 0.5])
+        yield s1d_case(rng, L, [rng.random() < dens for _ in range(L)], rng.choice([1, 2]), rng.random() < 0.5, rng.random() < 0.7)
+    # (s3) n-d fields: anisotropic cell sizes decades apart, components / lines at their own scales
+    for _ in range(80 if q else 900):
+        yield dict(kind="sfield", nd=gen_scaled_mesh(rng), nvdim=rng.choice([1, 1, 2, 3, 3, 4, 6]), order=rng.choice([1, 2]),
+                   restrict=rng.random() < 0.7, density=rng.choice([1.0, 0.9, 0.7, 0.5]), sub=rng.getrandbits(32))
+    # (s4) long lines: thousands of cells along one axis
+    pats = ["all", "few", "few", "ends", "rand", "blocks"]
+    for _ in range(16 if q else 80):
+        L = rng.choice([300, 1001, 2048, 3000, 5000])
+        yield dict(kind="sline", L=L, pat=rng.choice(pats), order=rng.choice([1, 2]),
+                   sc=gen_scale(rng, False), sub=rng.getrandbits(32))
+    for _ in range(16 if q else 80):
+        L = rng.choice([200, 600, 1500, 3000, 4096])
+        periodic, restrict = rng.random() < 0.5, rng.random() < 0.7
+        c = s1d_case(rng, L, None, rng.choice([1, 2]), periodic, restrict)
+        del c["mask"]
+        c["pat"] = rng.choice(pats)
+        yield c
+    for _ in range(8 if q else 40):
+        yield dict(kind="slong2d", L=rng.choice([400, 1001, 2500]), w=rng.choice([2, 3]), longax=rng.choice([0, 1]),
+                   nvdim=rng.choice([1, 2]), order=rng.choice([1, 2]), periodic=rng.random() < 0.5, restrict=rng.random() < 0.7,
+                   sc=gen_scale(rng, True), sub=rng.getrandbits(32))
+    # (s5) orders other than 1 and 2 are refused
+    for order in (0, 3, 4, 7, -1, -2):
+        yield dict(kind="badorder", order=order, mesh=fieldio.gen_mesh_spec(rng, max_cells=40, nmax=5, bc_prob=0.5),
+                   nvdim=rng.choice([1, 2]), sub=rng.getrandbits(32))
+    if INT_DTYPE:
+        for _ in range(40):
+            yield dict(kind="intdtype", L=rng.randint(3, 12), order=rng.choice([1, 2]), hexp=rng.randint(-3, 0),
+                       dtype=rng.choice(["int32", "int64"]), sub=rng.getrandbits(32))
+
+
+def s1d_case(rng, L, mask, order, periodic, restrict):
+    f32 = L <= 10 and rng.random() < 0.12   # float32 storage: data and results chosen to fit 24 bits
+    sc = gen_scale(rng, periodic or not restrict, f32)
+    r = rng.random()
+    off = 0 if r < 0.3 else rng.randint(-50, 50) if r < 0.6 else rng.choice([-1, 1]) * rng.randint(10 ** 3, 10 ** 6) if r < 0.9 \
+        else rng.choice([-1, 1]) * rng.randint(2 ** 30, 2 ** (36 if sc["tol"] else 40))
+    return dict(kind="sfield1d", L=L, mask=mask, order=order, periodic=periodic, restrict=restrict, sc=sc,
+                off=off, dtype="float32" if f32 else None, sub=rng.getrandbits(32))
+
+
+def gen_scaled_mesh(rng):
+    tol = rng.random() < 0.4
+    ndim = rng.choice([1, 2, 2, 3, 3, 4])
+    n = [rng.randint(1, 7) for _ in range(ndim)]
+    while int(np.prod(n)) > 90:
+        k = rng.randrange(ndim)
+        n[k] = max(1, n[k] - 1)
+    same = rng.random() < 0.3
+    if tol:
+        # Mesh.sel (used by Field.diff to enumerate the grid lines) rebuilds a one-cell slab from rounded coordinates and
+        # accepts it only if its thickness is within 1e-3 of the SMALLEST cell edge of any axis: with arbitrary floats that
+        # bounds |coordinate| / min(cell) (see ANISO_FAR).  Default stream: cell sizes within 5 decades, offsets <= 1e3 cells
+        # (<= 1e6 cells when all axes share a decade); the dyadic stream below has no such limit (140 binades, 2^24 cells).
+        d0 = rng.randint(-12, 19)
+        if ANISO_FAR:
+            cell = [dec_float(rng, d0, d0, 4) if same else dec_float(rng, -12, 19, 4) for _ in range(ndim)]
+            far = 10 ** 6
+        else:
+            d0 = min(d0, 14)
+            cell = [dec_float(rng, d0, d0 if same else d0 + 5, 4) for _ in range(ndim)]
+            far = 10 ** 6 if same else 10 ** 3
+        offs = [rng.choice([0, rng.randint(-50, 50), rng.choice([-1, 1]) * rng.randint(far // 10, far)]) for _ in range(ndim)]
+        p1 = [o * c for o, c in zip(offs, cell)]
+        p2 = [a + k * c for a, k, c in zip(p1, n, cell)]
+        pure = False
+    else:
+        e0 = rng.randint(-70, 70)
+        pure = rng.random() < 0.7   # pure powers of two: exact regime; otherwise 3*2^e, 5*2^e cells (tolerance regime, dyadic data)
+        cq = [Fraction(1 if pure else rng.choice([1, 3, 5])) * P2(e0 if same else rng.randint(-70, 70)) for _ in range(ndim)]
+        offs = [rng.choice([0, rng.randint(-50, 50), rng.choice([-1, 1]) * rng.randint(2 ** 10, 2 ** 24)]) for _ in range(ndim)]
+        p1 = [float(o * c) for o, c in zip(offs, cq)]
+        p2 = [float((o + k) * c) for o, k, c in zip(offs, n, cq)]
+    dims = rng.sample(fieldio.NAMES, ndim) if rng.random() < 0.5 else None
+    dd = dims or (["x", "y", "z"][:ndim] if ndim <= 3 else [])
+    bc = "".join(d for d in dd if rng.random() < 0.45)
+    return dict(p1=p1, p2=p2, n=n, dims=dims, bc=bc, tol=tol, pure=pure,
+                vexp=(0 if tol else rng.choice([0, rng.randint(-100, 70), rng.randint(-300, 300)])),
+                A=(dec_float(rng, -30, 20) if tol else None), mant=rng.choice([4, 10, 20]), base=rng.choice([0, 0, 0, 1, 1000]))
+
+
+# ------------------------------------------------------------------ values at a scale
+def nz_int(rng, bits):
+    v = 0
+    while v == 0:
+        v = rng.randint(-(2 ** bits) + 1, 2 ** bits - 1)
+    return v
+
+
+def sc_int(rng, sc):
+    """integer mantissa of a value: any integer below 2^mant (zero now and then: a zero VALUE is not an invalid cell);
+    near-constant data: 2^(mant-1) + a 6-bit variation"""
+    if rng.random() < 0.08:
+        return 0
+    if sc.get("nc"):
+        return 2 ** (sc["mant"] - 1) + rng.randint(-63, 63)
+    return nz_int(rng, sc["mant"])
+
+
+def clamp_exp(sc, e):
+    lim = 930 - 2 * abs(sc.get("hexp", 0))   # keeps value / h^2 a normal binary64 number
+    return max(-lim, min(lim, e))
+
+
+def cell_scales(rng, L, mask, sc):
+    """scale of every cell of a line: one per maximal run of `mask`, one per invalid cell
+    (binary exponents in the exact regime, decades in the tolerance regime)"""
+    sp, out, cur = sc["spread"], [], None
+    for i in range(L):
+        if mask[i]:
+            if i == 0 or not mask[i - 1]:
+                cur = rng.randint(-sp, sp)
+            out.append(cur)
+        else:
+            out.append(rng.randint(-sp, sp))
+    if sc["tol"]:
+        return [Fraction(float(sc["A"]) * 10.0 ** d) for d in out]
+    return [P2(clamp_exp(sc, sc["vexp"] + d)) for d in out]
+
+
+def scaled_vals(rng, L, cs, sc):
+    """one grid line of binary64 values (as exact Fractions) at the cell scales `cs`"""
+    if sc["tol"]:
+        return [Fraction(0) if rng.random() < 0.05 else Fraction(float(c) * (sc["base"] + rng.uniform(-1, 1))) for c in cs]
+    return [sc_int(rng, sc) * c for c in cs]
+
+
+def wild_vals(rng, L, sc):
+    """values at scales unrelated to the line's own (for 'does not depend on ...' checks)"""
+    if sc["tol"]:
+        return [Fraction(float(sc["A"]) * 10.0 ** rng.randint(-40, 40) * rng.uniform(-9, 9)) for _ in range(L)]
+    w = 40 if sc.get("f32") else 250
+    return [nz_int(rng, 6 if sc.get("f32") else 20) * P2(clamp_exp(sc, sc["vexp"] + rng.randint(-w, w))) for _ in range(L)]
+
+
+def fl(vs):
+    return np.array([float(v) for v in vs])
+
+
+def loc_max(absv, i, L, ring):
+    js = range(i - 3, i + 4)
+    return max([absv[j % L] for j in js] if ring else [absv[j] for j in js if 0 <= j < L])
+
+
+def within(got, exp, tol, absv, i, L, ring, hq, order, factor=1, hrel=0):
+    """got (binary64) equals the exact value exp; in the tolerance regime up to the stencil's forward error
+    (+ the relative uncertainty hrel of the cell size, see coord_noise)"""
+    if not math.isfinite(float(got)):
+        return False
+    a = Fraction(float(got))
+    if a == exp:
+        return True
+    return bool(tol) and abs(a - exp) <= KTOL * factor * EPS * loc_max(absv, i, L, ring) / hq ** order + hrel * abs(exp)
+
+
+def coord_noise(pmin, pmax, order):
+    """Tolerance regime only.  Corner coordinates that are arbitrary floats fix the cell size only up to their own
+    rounding: the library derives cell sizes from corners it has moved by whole cells (wrap padding of a periodic
+    axis), each move rounding at ulp(|corner|).  Relative slack granted on a derivative: order * 8 ulp(corner) / edge."""
+    u = math.ulp(max(abs(float(pmin)), abs(float(pmax))))
+    return order * 8 * Fraction(u) / (Fraction(float(pmax)) - Fraction(float(pmin)))
+
+
+def scaled_oracle(fn, L, mask, order, hq, rng, fail, sc, periodic=False, restrict=True, hrel=0):
+    """property-level checks on one grid line at the scale `sc`.
+    fn(values float array, mask bool array) -> derivative array (real code, restriction / periodicity built in)."""
+    tol = sc["tol"]
+    mask = np.array(mask, dtype=bool)
+    eff = mask if restrict else np.ones(L, dtype=bool)
+    ms = mask.astype(int).tolist() if L <= 60 else f"<{L} cells, {int(mask.sum())} valid>"
+    where = f"order {order}, h={float(hq):.6g}, periodic={periodic}, restrict={restrict}, mask {ms}, scale {sc}"
+    runs = runs_of(eff)
+    cs = cell_scales(rng, L, mask, sc)
+    t = [Fraction(3, 4) + j for j in range(L)]
+    if not periodic:
+        # ---- exact derivative of a low-degree polynomial on every run, each run at its own scale
+        vals = scaled_vals(rng, L, cs, sc)
+        cos, sca = {}, {}
+        cmax = 4 if L <= 1000 and not sc.get("f32") else 2
+        for (s, e) in runs:
+            n = e - s
+            deg = {1: (2 if n >= 3 else 1), 2: (3 if n >= 4 else 2)}[order]
+            co = [Fraction(rng.uniform(-4, 4)) if tol else Fraction(rng.randint(-cmax, cmax)) for _ in range(deg + 1)]
+            S = cs[s]
+            cos[(s, e)], sca[(s, e)] = co, S
+            for i in range(s, e):
+                vals[i] = Fraction(float(S * sum(c * t[i] ** k for k, c in enumerate(co))))
+        out = fn(fl(vals), mask)
+        absv = [abs(v) if eff[i] else Fraction(0) for i, v in enumerate(vals)]
+        ok = True
+        if restrict:
+            for i in range(L):
+                if not mask[i] and out[i] != 0:
+                    fail(f"invalid cell {i} has derivative {out[i]} ({where})")
+                    ok = False
+                    break
+        for (s, e) in runs if ok else []:
+            n = e - s
+            for i in range(s, e):
+                # d^order/dx^order of S*q((x - x0)/h + 3/4) is S*q^(order)(t)/h^order
+                exp = sca[(s, e)] * poly_d(cos[(s, e)], t[i], order) / hq ** order if n > order else Fraction(0)
+                good = (Fraction(float(out[i])) == exp) if n <= order else within(out[i], exp, tol, absv[s:e], i - s, n, False, hq, order, hrel=hrel)
+                if not good:
+                    fail(f"run [{s},{e}): cell {i} gives {out[i]!r}, exact derivative of the polynomial {float(sca[(s, e)])!r}*{[float(c) for c in cos[(s, e)]]} "
+                         f"(in t=(x-x0)/h+3/4) is {float(exp)!r} ({where})")
+                    ok = False
+                    break
+            if not ok:
+                break
+    # ---- arbitrary values at the scale: zeros, locality, ring behaviour, linearity, homogeneity
+    vals = scaled_vals(rng, L, cs, sc)
+    fv = fl(vals)
+    out = fn(fv, mask)
+    absv = [abs(v) if eff[i] else Fraction(0) for i, v in enumerate(vals)]
+    if restrict and any(out[i] != 0 for i in range(L) if not mask[i]):
+        fail(f"an invalid cell has a non-zero derivative ({where})")
+    if not np.all(np.isfinite(out)):
+        fail(f"non-finite derivative ({where})")
+        return out, vals
+    if periodic:
+        s = rng.randint(1, max(1, L - 1))
+        outr = fn(np.roll(fv, s), np.roll(mask, s))
+        ref = np.roll(out, s)
+        absr = absv[-s % L:] + absv[:-s % L] if L else absv
+        if not all(within(outr[i], Fraction(float(ref[i])), tol, absr, i, L, True, hq, order, 2) for i in range(L)):
+            fail(f"periodic diff does not commute with a cyclic shift by {s}: values {fv.tolist() if L <= 60 else '...'} ({where})")
+        if eff.all() and L >= 1:
+            for j in range(L):
+                exp = ((vals[(j + 1) % L] - vals[(j - 1) % L]) / (2 * hq)) if order == 1 else ((vals[(j + 1) % L] - 2 * vals[j] + vals[(j - 1) % L]) / (hq * hq))
+                if not within(out[j], exp, tol, absv, j, L, True, hq, order, hrel=hrel):
+                    fail(f"fully valid ring: cell {j} is {out[j]!r}, centred wrap-around difference is {float(exp)!r} ({where})")
+                    break
+    elif restrict and runs:
+        s, e = runs[rng.randrange(len(runs))]
+        w = wild_vals(rng, L, sc)
+        v2 = [vals[i] if s <= i < e else w[i] for i in range(L)]
+        out2 = fn(fl(v2), mask)
+        if not np.array_equal(out2[s:e], out[s:e]):
+            fail(f"run [{s},{e}) changes when values outside it change (to other magnitudes) ({where})")
+    f1 = scaled_vals(rng, L, cs, sc)
+    f2 = scaled_vals(rng, L, cs, sc)
+    comb = [2 * a - 3 * b for a, b in zip(f1, f2)]
+    lhs = fn(fl(comb), mask)
+    d1, d2 = fn(fl(f1), mask), fn(fl(f2), mask)
+    ab = [(2 * abs(a) + 3 * abs(b)) if eff[i] else Fraction(0) for i, (a, b) in enumerate(zip(f1, f2))]
+    for i in range(L):
+        if not within(lhs[i], 2 * Fraction(float(d1[i])) - 3 * Fraction(float(d2[i])), tol, ab, i, L, periodic, hq, order, 3):
+            fail(f"not linear: diff(2f-3g) != 2diff(f)-3diff(g) at cell {i} ({where})")
+            break
+    ce = rng.choice([-1, 1]) * rng.randint(20, 200)
+    if sc.get("f32"):
+        ce = rng.randint(-30, 30)
+    elif not tol:
+        room = 970 - 2 * abs(sc["hexp"]) - min(abs(sc["vexp"]) + sc["spread"], 930 - 2 * abs(sc["hexp"]))
+        ce = max(-room, min(room, ce))
+    c = rng.choice([Fraction(1), Fraction(-5, 2), Fraction(3)]) * P2(ce)
+    hom = fn(fl([c * v for v in vals]), mask)
+    ca = [abs(c) * a for a in absv]
+    for i in range(L):
+        if not within(hom[i], c * Fraction(float(out[i])), tol, ca, i, L, periodic, hq, order, 2):
+            fail(f"not homogeneous: diff(c*f) != c*diff(f) for c={float(c)!r} at cell {i}: {hom[i]!r} vs {float(c) * out[i]!r} ({where})")
+            break
+    return out, vals
+
+
+def scale_tags(sc, order, hq):
+    tg = ["regime:" + ("tol" if sc["tol"] else "exact")]
+    vmag = (float(sc["A"]) if sc["tol"] else float(P2(sc["vexp"])))
+    dmag = vmag / float(hq) ** order
+    for name, x in (("vmag", vmag), ("hmag", float(hq)), ("dmag", dmag)):
+        d = math.log10(x) if x > 0 else 0
+        b = "<1e-60" if d < -60 else "1e-60..1e-16" if d < -16 else "1e-16..1e-6" if d < -6 else "1e-6..1e6" if d <= 6 \
+            else "1e6..1e16" if d <= 16 else "1e16..1e60" if d <= 60 else ">1e60"
+        tg.append(f"{name}:{b}")
+    if sc["spread"]:
+        tg.append("multiscale-runs")
+    if not sc["tol"] and sc["mant"] > 24:
+        tg.append("mantissa>24bit")
+    return tg
+
+
+def build_1d(case):
+    sc, L = case["sc"], case["L"]
+    if sc["tol"]:
+        h = float(sc["hf"])
+        p1 = case["off"] * h
+        p2 = p1 + L * h
+    else:
+        hq = P2(-sc["hexp"])
+        off = case["off"]
+        p1, p2 = float(off * hq), float((off + L) * hq)
+    return df.Mesh(p1=p1, p2=p2, n=L, bc="x" if case["periodic"] else "")
+
+
+def run_scaled(case, obs, rng, fail):
+    kind = case["kind"]
+    if kind == "sline":
+        L, order, sc = case["L"], case["order"], case["sc"]
+        mask = np.array(case_mask(case), dtype=bool)
+        hq = sc_h(sc)
+        hf = float(hq)
+        fn = lambda a, m: dfo._split_diff_combine(a, m, order, hf)
+        out, vals = scaled_oracle(fn, L, mask, order, hq, rng, fail, sc)
+        obs["vals"], obs["out"], obs["h"] = Qs(vals), [float(x) for x in out], Q(hq)
+        rl = [e - s for s, e in runs_of(mask)]
+        obs["tags"] += [f"order:{order}"] + scale_tags(sc, order, hq) + (["long:L>=1000"] if L >= 1000 else [])
+        obs["nontrivial"] = bool(rl) and max(rl) > order
+    elif kind == "sfield1d":
+        L, order, sc = case["L"], case["order"], case["sc"]
+        periodic, restrict = case["periodic"], case["restrict"]
+        mask = np.array(case_mask(case), dtype=bool)
+        mesh = build_1d(case)
+        dt = case.get("dtype")
+        kw = {"dtype": getattr(np, dt)} if dt else {}
+        hq = (Fraction(float(mesh.region.pmax[0])) - Fraction(float(mesh.region.pmin[0]))) / L
+        if not sc["tol"] and hq != P2(-sc["hexp"]):
+            raise core.MachineryError(f"exact-regime mesh is not exact: {case}")
+        if not sc["tol"] and Fraction(float(mesh.cell[0])) != hq:
+            fail(f"mesh.cell {mesh.cell[0]!r} of a mesh with exactly representable cells differs from (pmax-pmin)/n = {float(hq)!r}")
+
+        def fn(a, m):
+            f = df.Field(mesh, nvdim=1, value=np.asarray(a).reshape(L, 1), valid=m, **kw)
+            return f.diff("x", order=order, restrict2valid=restrict).array[:, 0]
+
+        hrel = coord_noise(mesh.region.pmin[0], mesh.region.pmax[0], order) if sc["tol"] else 0
+        obs["hrel"] = hrel
+        out, vals = scaled_oracle(fn, L, mask, order, hq, rng, fail, sc, periodic=periodic, restrict=restrict, hrel=hrel)
+        f = df.Field(mesh, nvdim=1, value=fl(vals).reshape(L, 1), valid=mask, unit="T", **kw)
+        g = f.diff("x", order=order, restrict2valid=restrict)
+        if not np.array_equal(g.array[:, 0], out):
+            fail("the same field differentiated twice gives different results")
+        if not (g.mesh == f.mesh and g.unit == f.unit and np.array_equal(g.valid, f.valid) and g.nvdim == f.nvdim):
+            fail("diff changed mesh, unit, validity or component count")
+        obs["res"], obs["vals"], obs["h"] = g, Qs(vals), Q(hq)
+        if L <= MODEL_FIELD_MAX:
+            obs["field"] = fieldio.field_json(f)
+        obs["tags"] += [f"order:{order}", f"periodic:{periodic}", f"restrict:{restrict}"] + scale_tags(sc, order, hq)
+        obs["tags"] += (["long:L>=1000"] if L >= 1000 else []) + ([f"dtype:{dt}"] if dt else [])
+        obs["tags"] += ["offset:0" if case["off"] == 0 else "offset:<=50 cells" if abs(case["off"]) <= 50 else "offset:1e3..1e6 cells"
+                        if abs(case["off"]) <= 10 ** 6 else "offset:>=2^30 cells"]
+        obs["nontrivial"] = L > order
+    elif kind == "sfield":
+        run_sfield(case, obs, rng, fail)
+    elif kind == "slong2d":
+        run_slong2d(case, obs, rng, fail)
+    elif kind == "intdtype":
+        # integer-typed storage (Field(..., dtype=int)): integer samples of a quadratic, cells 2^k >= 1
+        L, order = case["L"], case["order"]
+        h = P2(-case["hexp"])
+        mesh = df.Mesh(p1=0.0, p2=float(L * h), n=L)
+        co = [rng.randint(-4, 4), rng.randint(-4, 4), rng.choice([-3, -1, 1, 3])]
+        v = [sum(c * j ** k for k, c in enumerate(co)) for j in range(L)]
+        f = df.Field(mesh, nvdim=1, value=np.array(v, dtype=case["dtype"]).reshape(L, 1), dtype=getattr(np, case["dtype"]))
+        g = f.diff("x", order=order)
+        for j in range(L):
+            # p(j) sampled at x = (j + 1/2) h: d/dx = p'(j)/h, d2/dx2 = p''/h^2 ; exact for runs longer than the order
+            exp = (Fraction(co[1] + 2 * co[2] * j) / h if order == 1 else Fraction(2 * co[2]) / (h * h)) if L > order else Fraction(0)
+            if Fraction(float(g.array[j, 0])) != exp:
+                fail(f"field stored as {case['dtype']}: cell {j} of {v} (h={float(h)}) gives {g.array[j, 0]!r}, exact derivative is {float(exp)!r}")
+                break
+        obs["tags"] += [f"dtype:{case['dtype']}"]
+        obs["nontrivial"] = True
+    elif kind == "badorder":
+        mesh = fieldio.build_mesh(case["mesh"])
+        nv = case["nvdim"]
+        f = df.Field(mesh, nvdim=nv, value=fieldio.gen_int_array(rng, (*mesh.n, nv)))
+        obs["field"] = fieldio.field_json(f)
+        for d in mesh.region.dims:
+            for restrict in (True, False):
+                try:
+                    f.diff(d, order=case["order"], restrict2valid=restrict)
+                    fail(f"order {case['order']} accepted along {d} (restrict2valid={restrict})")
+                except NotImplementedError:
+                    pass
+        obs["tags"] += [f"order:{case['order']}"]
+        obs["nontrivial"] = True
+
+
+def nd_values(rng, mesh, nv, nd, wild=False):
+    """values of an n-d field: components at scales of their own (any distance apart), lines a few bits apart"""
+    shape = (*mesh.n, nv)
+    size = int(np.prod(shape))
+    if nd["tol"]:
+        cd = [rng.randint(-25, 25) for _ in range(nv)]
+        ad = [[rng.randint(-8, 8) for _ in range(k)] for k in mesh.n]
+        arr = np.empty(shape)
+        for idx in np.ndindex(*shape):
+            d = cd[idx[-1]] + sum(ad[k][j] for k, j in enumerate(idx[:-1])) + (rng.randint(-40, 40) if wild else 0)
+            arr[idx] = float(nd["A"]) * 10.0 ** d * (nd["base"] + rng.uniform(-1, 1))
+        return arr
+    lim = 930 - 2 * 72
+    ce = [rng.randint(-200, 200) for _ in range(nv)]
+    ae = [[rng.randint(-4, 4) for _ in range(k)] for k in mesh.n]
+    arr = np.empty(shape)
+    for idx in np.ndindex(*shape):
+        e = nd["vexp"] + ce[idx[-1]] + sum(ae[k][j] for k, j in enumerate(idx[:-1])) + (rng.randint(-200, 200) if wild else 0)
+        arr[idx] = 0.0 if rng.random() < 0.05 else float(nz_int(rng, nd["mant"]) * P2(max(-lim, min(lim, e))))
+    return arr
+
+
+def run_sfield(case, obs, rng, fail):
+    nd, nv, order, restrict = case["nd"], case["nvdim"], case["order"], case["restrict"]
+    mesh = fieldio.build_mesh(nd)
+    arr = nd_values(rng, mesh, nv, nd)
+    mask = fieldio.gen_mask(rng, tuple(mesh.n), case["density"])
+    f = df.Field(mesh, nvdim=nv, value=arr, valid=mask, unit="A/m")
+    obs["field"] = fieldio.field_json(f)
+    obs["res"], obs["arr"], obs["mask"] = {}, arr, mask
+    exact = bool(nd["pure"]) and not nd["tol"]
+    if exact:
+        for k in range(mesh.region.ndim):
+            hq = (Fraction(float(mesh.region.pmax[k])) - Fraction(float(mesh.region.pmin[k]))) / int(mesh.n[k])
+            if Fraction(float(mesh.cell[k])) != hq:
+                fail(f"mesh.cell[{k}] = {mesh.cell[k]!r} of a mesh with exactly representable cells differs from (pmax-pmin)/n = {float(hq)!r}")
+    snap = (f.array.copy(), f.valid.copy())
+    c = float(rng.choice([1, -5, 3]) * P2(rng.choice([-1, 1]) * rng.randint(20, 100 if nd["tol"] or abs(nd["vexp"]) < 150 else 30)))
+    for ax, d in enumerate(mesh.region.dims):
+        g = f.diff(d, order=order, restrict2valid=restrict)
+        obs["res"][ax] = g
+        where = f"along {d} (axis {ax}), order {order}, restrict={restrict}, bc={mesh.bc!r}, n={list(mesh.n)}, cell={mesh.cell.tolist()}"
+        if not np.all(np.isfinite(g.array)):
+            fail(f"non-finite derivative {where}")
+            continue
+        if not (g.mesh == f.mesh and g.unit == f.unit and np.array_equal(g.valid, f.valid)
+                and list(g.vdims or []) == list(f.vdims or []) and g.vdim_mapping == f.vdim_mapping):
+            fail(f"diff changed mesh, unit, validity, labels or mapping {where}")
+        if restrict and np.any(g.array[~mask] != 0):
+            fail(f"an invalid cell has a non-zero derivative {where}")
+        tolarr = None
+        if not exact:
+            tolarr = KTOL * 2.0 ** -52 * nd_locmax(np.abs(arr) * (mask[..., None] if restrict else 1), ax, d in mesh.bc) / float(mesh.cell[ax]) ** order
+        # each component on its own
+        if nv > 1:
+            k = rng.randrange(nv)
+            gk = df.Field(mesh, nvdim=1, value=arr[..., k:k + 1], valid=mask).diff(d, order=order, restrict2valid=restrict)
+            if not np.array_equal(gk.array[..., 0], g.array[..., k]):
+                fail(f"component {k} differs when differentiated alone {where}")
+        # each grid line on its own: other values (at any magnitude) on ONE line leave all other lines alone
+        if int(np.prod(mesh.n)) > mesh.n[ax]:
+            line = [rng.randrange(k) for k in mesh.n]
+            line[ax] = slice(None)
+            a2 = arr.copy()
+            a2[tuple(line)] = nd_values(rng, mesh, nv, nd, wild=True)[tuple(line)]
+            g2 = df.Field(mesh, nvdim=nv, value=a2, valid=mask).diff(d, order=order, restrict2valid=restrict)
+            keep = np.ones(arr.shape, dtype=bool)
+            keep[tuple(line)] = False
+            if not np.array_equal(g2.array[keep], g.array[keep]):
+                fail(f"changing the values of one grid line changes the derivative on another line {where}")
+        # restriction off == fully valid field
+        if not restrict:
+            ga = df.Field(mesh, nvdim=nv, value=arr).diff(d, order=order)
+            if not np.array_equal(ga.array, g.array):
+                fail(f"restrict2valid=False differs from a fully valid field {where}")
+        # homogeneity under a change of units of the values
+        gc = df.Field(mesh, nvdim=nv, value=c * arr, valid=mask).diff(d, order=order, restrict2valid=restrict)
+        bad = (gc.array != c * g.array) if exact else (np.abs(gc.array - c * g.array) > 2 * abs(c) * tolarr)
+        if np.any(bad):
+            idx = tuple(int(x) for x in np.argwhere(bad)[0])
+            fail(f"not homogeneous: diff(c*f) != c*diff(f) for c={c!r} at {idx}: {gc.array[idx]!r} vs {c * g.array[idx]!r} {where}")
+    if not (np.array_equal(snap[0], f.array) and np.array_equal(snap[1], f.valid)):
+        fail("diff modified its operand")
+    hm = [math.log10(float(x)) for x in mesh.cell]
+    obs["tags"] += [f"ndim:{mesh.region.ndim}", f"nvdim:{nv}", f"bc:{'p' if mesh.bc else 'open'}", f"restrict:{restrict}",
+                    "regime:" + ("exact" if exact else "tol"), "multiscale-components" if nv > 1 else "one-component"]
+    if len(hm) > 1 and max(hm) - min(hm) > 6:
+        obs["tags"].append("anisotropy>1e6")
+    obs["tags"].append("hmag:" + ("<1e-6" if min(hm) < -6 else ">1e6" if max(hm) > 6 else "1e-6..1e6"))
+    obs["nontrivial"] = max(mesh.n) > order
+
+
+def nd_locmax(absarr, ax, ring):
+    """max over the 7-cell neighbourhood along axis ax (wrapping if the axis is periodic)"""
+    n = absarr.shape[ax]
+    out = absarr.copy()
+    for s in (1, 2, 3):
+        for sg in (s, -s):
+            r = np.roll(absarr, sg, axis=ax)
+            if not ring:
+                sl = [slice(None)] * absarr.ndim
+                sl[ax] = slice(0, min(sg, n)) if sg > 0 else slice(max(n + sg, 0), n)
+                r[tuple(sl)] = 0
+            out = np.maximum(out, r)
+    return out
+
+
+def run_slong2d(case, obs, rng, fail):
+    L, w, nv, order, sc = case["L"], case["w"], case["nvdim"], case["order"], case["sc"]
+    periodic, restrict, la = case["periodic"], case["restrict"], case["longax"]
+    n = [w, w]
+    n[la] = L
+    if sc["tol"]:
+        hl = float(sc["hf"])
+        d0 = int(math.floor(math.log10(hl)))
+        # arbitrary floats: the short axis within 3 decades of the long one (Mesh.pad / Mesh.sel accept a rebuilt mesh only
+        # within 1e-3 of the SMALLEST cell edge of any axis, see ANISO_FAR)
+        hs = dec_float(rng, -12, 19, 4) if ANISO_FAR else dec_float(rng, d0 - 3, d0 + 3, 4)
+    else:
+        hl, hs = float(P2(-sc["hexp"])), float(P2(rng.randint(-70, 70)))
+    cell = [hs, hs]
+    cell[la] = hl
+    mesh = df.Mesh(p1=(0.0, 0.0), p2=(n[0] * cell[0], n[1] * cell[1]), n=n, bc="xy"[la] if periodic else "")
+    hq = Fraction(float(mesh.region.pmax[la])) / L
+    mask = np.ones(n, dtype=bool)
+    arr = np.empty((*n, nv))
+    lines = []
+    for j in range(w):
+        sl = [j, j]
+        sl[la] = slice(None)
+        m = np.array(long_mask(rng, L, rng.choice(["all", "few", "few", "ends", "rand", "blocks"])), dtype=bool)
+        mask[tuple(sl)] = m
+        for c in range(nv):
+            v = scaled_vals(rng, L, cell_scales(rng, L, m, sc), sc)
+            arr[tuple([*sl, c])] = fl(v)
+            lines.append((j, c, v, m))
+    f = df.Field(mesh, nvdim=nv, value=arr, valid=mask, unit="A/m")
+    g = f.diff("xy"[la], order=order, restrict2valid=restrict)
+    if not (g.mesh == f.mesh and g.unit == f.unit and np.array_equal(g.valid, f.valid) and g.nvdim == f.nvdim):
+        fail("diff changed mesh, unit, validity or component count")
+    if restrict and np.any(g.array[~mask] != 0):
+        fail("an invalid cell has a non-zero derivative (long 2-d field)")
+    # one line replaced by values at other magnitudes: the other lines do not move
+    j0 = rng.randrange(w)
+    sl = [j0, j0]
+    sl[la] = slice(None)
+    a2 = arr.copy()
+    for c in range(nv):
+        a2[tuple([*sl, c])] = fl(wild_vals(rng, L, sc))
+    g2 = df.Field(mesh, nvdim=nv, value=a2, valid=mask).diff("xy"[la], order=order, restrict2valid=restrict)
+    keep = np.ones(arr.shape, dtype=bool)
+    keep[tuple(sl)] = False
+    if not np.array_equal(g2.array[keep], g.array[keep]):
+        fail("changing the values of one grid line changes the derivative on another line (long 2-d field)")
+    obs["lines"] = []
+    for (j, c, v, m) in lines:
+        sl = [j, j]
+        sl[la] = slice(None)
+        obs["lines"].append(dict(vals=Qs(v), valid=[bool(x) for x in m], out=[float(x) for x in g.array[tuple([*sl, c])]]))
+    obs["h"] = Q(hq)
+    obs["tags"] += [f"order:{order}", f"periodic:{periodic}", f"restrict:{restrict}", "long:L>=1000" if L >= 1000 else "long:L<1000",
+                    f"longaxis:{la}"] + scale_tags(sc, order, hq)
+    obs["nontrivial"] = True
+
+
+def cmp_line_vals(name, vals, valid, restrict, periodic, hq, order, got, model, tol, dis, hrel=0):
+    L = len(vals)
+    if len(got) != L or len(model) != L:
+        dis.append(f"{name}: length impl {len(got)} vs model {len(model)} vs line {L}")
+        return
+    absv = [abs(v) if (valid[i] or not restrict) else Fraction(0) for i, v in enumerate(vals)]
+    for i in range(L):
+        if not within(got[i], F(model[i]), tol, absv, i, L, periodic, hq, order, hrel=hrel):
+            dis.append(f"{name}: cell {i}: impl {got[i]!r} vs model {model[i]} (= {float(F(model[i]))!r})")
+            return
+
+
+def scaled_requests(case, obs):
+    kind = case["kind"]
+    if kind == "sline":
+        return [dict(op="sdc", order=case["order"], h=obs["h"], vals=obs["vals"], valid=case_mask(case), periodic=False, restrict=True)]
+    if kind == "sfield1d":
+        if "field" in obs:
+            return [dict(op="field_diff", field=obs["field"], ax=0, order=case["order"], restrict=case["restrict"])]
+        return [dict(op="sdc", order=case["order"], h=obs["h"], vals=obs["vals"], valid=case_mask(case),
+                     periodic=case["periodic"], restrict=case["restrict"])]
+    if kind == "sfield":
+        return [dict(op="field_diff", field=obs["field"], ax=ax, order=case["order"], restrict=case["restrict"]) for ax in sorted(obs["res"])]
+    if kind == "slong2d":
+        return [dict(op="sdc", order=case["order"], h=obs["h"], vals=ln["vals"], valid=ln["valid"], periodic=case["periodic"],
+                     restrict=case["restrict"]) for ln in obs["lines"]]
+    if kind == "badorder":
+        return [dict(op="field_diff", field=obs["field"], ax=0, order=case["order"], restrict=True)] if case["order"] >= 0 else []
+    return []
+
+
+def scaled_compare(case, obs, rs):
+    dis = []
+    kind = case["kind"]
+    if kind == "sline":
+        cmp_line_vals("_split_diff_combine", [F(x) for x in obs["vals"]], case_mask(case), True, False, F(obs["h"]), case["order"],
+                      obs["out"], rs[0]["ok"], case["sc"]["tol"], dis)
+    elif kind == "sfield1d":
+        vals, mask = [F(x) for x in obs["vals"]], case_mask(case)
+        got = [float(x) for x in obs["res"].array[:, 0]]
+        if not np.all(np.isfinite(got)):
+            dis.append("Field.diff(1-d): impl has non-finite values, model has none")
+        elif "ok" not in rs[0]:
+            dis.append(f"Field.diff: impl ok vs model {rs[0]}")
+        elif "field" in obs:
+            fieldio.cmp_field("Field.diff(1-d, meta)", obs["res"], rs[0]["ok"], dis, exact=False, rel=2.0 ** 200)
+            cmp_line_vals("Field.diff(1-d)", vals, mask, case["restrict"], case["periodic"], F(obs["h"]), case["order"], got,
+                          [row[0] for row in rs[0]["ok"]["data"]], case["sc"]["tol"], dis, hrel=obs["hrel"])
+        else:
+            cmp_line_vals("Field.diff(1-d, long)", vals, mask, case["restrict"], case["periodic"], F(obs["h"]), case["order"], got,
+                          rs[0]["ok"], case["sc"]["tol"], dis, hrel=obs["hrel"])
+    elif kind == "sfield":
+        nd = case["nd"]
+        exact = bool(nd["pure"]) and not nd["tol"]
+        arr, mask = obs["arr"], obs["mask"]
+        for ax, r in zip(sorted(obs["res"]), rs):
+            g = obs["res"][ax]
+            if "ok" not in r:
+                dis.append(f"Field.diff axis {ax}: impl ok vs model {r}")
+                continue
+            if not np.all(np.isfinite(g.array)):
+                dis.append(f"Field.diff axis {ax}: impl has non-finite values, model has none")
+                continue
+            fieldio.cmp_field(f"Field.diff(axis {ax}, meta)", g, r["ok"], dis, exact=False, rel=2.0 ** 200)
+            got = np.asarray(g.array).reshape(-1, g.nvdim)
+            rows = r["ok"]["data"]
+            if len(rows) != len(got):
+                continue
+            ring = g.mesh.region.dims[ax] in g.mesh.bc
+            if exact:
+                tolarr = np.zeros(got.shape)
+            else:
+                tolarr = (KTOL * 2.0 ** -52 * nd_locmax(np.abs(arr) * (mask[..., None] if case["restrict"] else 1), ax, ring)
+                          / float(g.mesh.cell[ax]) ** case["order"]).reshape(-1, g.nvdim)
+            hrel = 0 if exact else coord_noise(g.mesh.region.pmin[ax], g.mesh.region.pmax[ax], case["order"])
+            done = False
+            for k, row in enumerate(rows):
+                for c, y in enumerate(row):
+                    a, b = Fraction(float(got[k, c])), F(y)
+                    if a != b and (exact or abs(a - b) > Fraction(float(tolarr[k, c])) + hrel * abs(b)):
+                        dis.append(f"Field.diff(axis {ax}): value at flat cell {k} comp {c}: impl {got[k, c]!r} vs model {y} (= {float(b)!r})")
+                        done = True
+                        break
+                if done:
+                    break
+    elif kind == "slong2d":
+        for ln, r in zip(obs["lines"], rs):
+            cmp_line_vals("Field.diff(long 2-d line)", [F(x) for x in ln["vals"]], ln["valid"], case["restrict"], case["periodic"],
+                          F(obs["h"]), case["order"], ln["out"], r["ok"], case["sc"]["tol"], dis, hrel=Fraction(case["order"] * 8, 2 ** 52))
+    elif kind == "badorder":
+        for r in rs:
+            if "err" not in r:
+                dis.append(f"order {case['order']}: impl raises, model {str(r)[:80]}")
+    return dis
+
+
+SCALED = ("sline", "sfield1d", "sfield", "slong2d", "badorder", "intdtype")
+
+
 def run_impl(case):
     rng = random.Random(case["sub"])
     obs = {"oracle": [], "tags": ["kind:" + case["kind"]]}
     fail = obs["oracle"].append
+    if case["kind"] in SCALED:
+        run_scaled(case, obs, rng, fail)
+        return obs
     if case["kind"] == "line":
         L, order = case["L"], case["order"]
         h = Fraction(1, 2 ** case["hexp"])
@@ -212,6 +990,8 @@ def run_impl(case):
 
 
 def model_requests(case, obs):
+    if case["kind"] in SCALED:
+        return scaled_requests(case, obs)
     if case["kind"] == "line":
         return [dict(op="sdc", order=case["order"], h=Q(Fraction(1, 2 ** case["hexp"])), vals=obs["vals"],
                      valid=case["mask"], periodic=False, restrict=True)]
@@ -222,6 +1002,8 @@ def model_requests(case, obs):
 
 
 def compare(case, obs, rs):
+    if case["kind"] in SCALED:
+        return scaled_compare(case, obs, rs)
     dis = []
     if case["kind"] == "line":
         if [F(x) for x in obs["out"]] != [F(x) for x in rs[0]["ok"]]:
@@ -246,15 +1028,20 @@ def nontrivial(case, obs):
 
 def known(case, text):
     # D17: periodic direction, restricted to valid cells, a valid run crossing the seam
-    if case["kind"] == "field1d" and case["periodic"] and "cyclic shift" in text:
-        m = case["mask"]
+    if case["kind"] in ("field1d", "sfield1d") and case["periodic"] and case.get("restrict", True) and "cyclic shift" in text:
+        m = case_mask(case)
         if not all(m) and any(m):
             return "D17"
     return None
 
 
 def search(case, rng):
-    for _ in range(300):
+    for k in range(400):
         L = rng.randint(1, 12)
-        yield dict(kind="line", L=L, mask=[rng.random() < 0.7 for _ in range(L)], order=rng.choice([1, 2]),
-                   hexp=rng.randint(0, 3), sub=rng.getrandbits(32))
+        mask = [rng.random() < 0.7 for _ in range(L)]
+        if k % 3 == 0:
+            yield dict(kind="line", L=L, mask=mask, order=rng.choice([1, 2]), hexp=rng.randint(0, 3), sub=rng.getrandbits(32))
+        elif k % 3 == 1:
+            yield dict(kind="sline", L=L, mask=mask, order=rng.choice([1, 2]), sc=gen_scale(rng, False), sub=rng.getrandbits(32))
+        else:
+            yield s1d_case(rng, L, mask, rng.choice([1, 2]), rng.random() < 0.5, rng.random() < 0.7)
